@@ -25,6 +25,7 @@ type Ctx struct {
 	immE           *immEngine
 	joinCache      map[*ssa.Function]bool
 	unsortedResult map[*ssa.Function]bool
+	retRangeCache  map[*ssa.Function][]retRange
 	VerifDir       string
 	Seed           int
 }
